@@ -38,7 +38,9 @@ enum ParseVerdict {
 };
 
 // Parse per the specification's grammar and quoting rules.
-ParseVerdict parse(const std::string &text, Rule *out, std::string *why);
+// wellknown_destination_ok: a destination key naming a well-known name is taken as specified (pinned for monitor
+// filters: it matches what the addressee owns, or the DESTINATION header when there is no addressee)
+ParseVerdict parse(const std::string &text, Rule *out, std::string *why, bool wellknown_destination_ok = false);
 
 // Facts about the message being matched that are not in the message itself.
 struct MatchCtx {
